@@ -15,6 +15,10 @@ class Deadlock(Exception):
     pass
 
 
+STALL_S = 0.25          # a baton holder that reaches no scheduling point for this long is blocked in a real wait
+HORIZON_S = 30.0
+
+
 class Sched(object):
     def __init__(self, bodies, choices, pkg, gran="call"):
         self.bodies = bodies
@@ -28,6 +32,10 @@ class Sched(object):
         self.results = [None] * self.n
         self.step = 0
         self.fin = threading.Event()
+        self.current = 0          # who holds the baton
+        self.blocked = set()      # threads found waiting on a real primitive (lock, future, event) of the code under test
+        self.guard = threading.Lock()
+        self.stalls = 0
 
     def pick(self, running, finished=False):
         enabled = [i for i in range(self.n) if not self.done[i]]
@@ -47,8 +55,18 @@ class Sched(object):
         return enabled[k]
 
     def point(self, me):
-        nxt = self.pick(me)
-        if nxt != me:
+        with self.guard:
+            if self.current != me:
+                # the baton was taken away while this thread sat in a real wait; it is runnable again
+                self.blocked.discard(me)
+                nxt = None
+            else:
+                nxt = self.pick(me)
+                if nxt != me:
+                    self.current = nxt
+        if nxt is None:
+            self.sem[me].acquire()
+        elif nxt != me:
             self.sem[nxt].release()
             self.sem[me].acquire()
 
@@ -79,27 +97,64 @@ class Sched(object):
             self.results[me] = ("EXC", type(e).__name__, str(e)[:200])
         finally:
             sys.settrace(None)
-            self.done[me] = True
-            try:
-                nxt = self.pick(me, finished=True)
-            except IndexError:
+            with self.guard:
+                self.done[me] = True
+                self.blocked.discard(me)
+                mine = self.current == me
                 nxt = None
-                self.error = "prefix out of range"
+                if mine:
+                    try:
+                        nxt = self.pick(me, finished=True)
+                    except IndexError:
+                        nxt = None
+                        self.error = "prefix out of range"
+                    if nxt is not None:
+                        self.current = nxt
+                alldone = all(self.done)
             if nxt is not None:
                 self.sem[nxt].release()
-            else:
+            elif alldone:
                 self.fin.set()
 
     def run(self):
         self.error = None
-        ts = [threading.Thread(target=self.run_thread, args=(i,)) for i in range(self.n)]
+        ts = [threading.Thread(target=self.run_thread, args=(i,), daemon=True) for i in range(self.n)]
         for t in ts:
             t.start()
         self.sem[0].release()
-        if not self.fin.wait(60):
-            raise Deadlock("no thread finished the execution within 60 s (deadlock or lost baton)")
+        # The main thread watches for a baton holder that stops reaching scheduling points: it sits in a real
+        # wait (a lock, future or event the code under test uses).  The baton then goes to the lowest-numbered
+        # thread that is neither finished nor known to be blocked; if there is none, that is a deadlock.
+        import time
+        t0 = time.time()
+        last = (-1, -1)
+        since = time.time()
+        while not self.fin.wait(0.05):
+            now = time.time()
+            if now - t0 > HORIZON_S:
+                raise Deadlock("execution did not finish within %.0f s" % HORIZON_S)
+            with self.guard:
+                seen = (self.step, self.current)
+                if seen != last:
+                    last, since = seen, now
+                    continue
+                if now - since < STALL_S:
+                    continue
+                cur = self.current
+                if self.done[cur]:
+                    continue
+                self.blocked.add(cur)
+                self.stalls += 1
+                others = [i for i in range(self.n) if not self.done[i] and i not in self.blocked]
+                if not others:
+                    raise Deadlock("every unfinished thread waits for another one (threads %s)" % sorted(self.blocked))
+                self.current = others[0]
+                self.points.append((cur, tuple([cur] + others), 1, 0))
+                last, since = (self.step, self.current), now
+                nxt = others[0]
+            self.sem[nxt].release()
         for t in ts:
-            t.join()
+            t.join(5)
         return self.results, self.points
 
 
@@ -114,7 +169,12 @@ def explore(make_bodies, check, pkg, gran, bound, first_range=None, max_schedule
 
     def run(prefix):
         s = Sched(make_bodies(), prefix, pkg, gran)
-        results, points = s.run()
+        try:
+            results, points = s.run()
+        except Deadlock as e:
+            out["schedules"] += 1
+            out["problems"].append((list(prefix), {"deadlock": str(e)}))
+            return s.points
         out["schedules"] += 1
         out["steps"] += len(points)
         p = sum(pt[3] for pt in points)
@@ -146,7 +206,12 @@ def explore(make_bodies, check, pkg, gran, bound, first_range=None, max_schedule
 
     root_prefix = []
     s = Sched(make_bodies(), root_prefix, pkg, gran)
-    results, points = s.run()
+    try:
+        results, points = s.run()
+    except Deadlock as e:
+        out["schedules"] += 1
+        out["problems"].append(([], {"deadlock": str(e)}))
+        return out
     out["points_root"] = len(points)
     lo, hi = first_range if first_range else (0, len(points))
     if lo == 0:
